@@ -101,14 +101,20 @@ def body(ctx, conv, shape, bounds, layout, nan_cells=None, mesh_opts=None, mode=
         if ctx.symbolic:
             ctx.check(kw.get('transform') is cv.data_crs and coll.closed is False, 'default transform is the data CRS')
     elif mode == 'overrides':
-        marker = object()
+        if ctx.symbolic:
+            marker = object()
+        else:
+            import matplotlib.transforms
+            marker = matplotlib.transforms.Affine2D().scale(2.0)
         arr = numpy.arange(len(present), dtype=float)
-        coll = cv.make_poly_collection(array=arr, clim=(-5.0, 5.0), **({'transform': marker} if ctx.symbolic else {}))
+        coll = cv.make_poly_collection(array=arr, clim=(-5.0, 5.0), transform=marker)
         verts, array, clim, kw = inspect(coll)
         ctx.check(len(verts) == len(present), 'one patch per cell that has geometry')
         ctx.check(array is not None and list(array) == list(arr) and tuple(clim) == (-5.0, 5.0), 'user supplied array and clim pass through')
         if ctx.symbolic:
             ctx.check(kw.get('transform') is marker, 'user supplied transform passes through')
+        else:
+            ctx.check(coll.get_transform() is marker, 'user supplied transform passes through')
         try:
             cv.make_poly_collection('temp', array=arr)
             ctx.check(False, 'data_array together with array is refused with TypeError')
@@ -124,8 +130,12 @@ def body(ctx, conv, shape, bounds, layout, nan_cells=None, mesh_opts=None, mode=
             ctx.check(True, 'face centres from centroids are checked in replay only')
             return
         if ctx.symbolic:
-            q = cv.make_quiver('axes', 'u', ds['v'])
+            tmark = object()
+            q = cv.make_quiver('axes', 'u', ds['v'], transform=tmark)
             x, y, uu, vv = q.args
+            ctx.check(q.kwargs.get('transform') is tmark, 'user supplied transform passes through to the quiver')
+            q0 = cv.make_quiver('axes', 'u', ds['v'])
+            ctx.check(q0.kwargs.get('transform') is cv.data_crs, 'default quiver transform is the data CRS')
         else:
             import matplotlib
             import matplotlib.pyplot as plt
@@ -133,6 +143,7 @@ def body(ctx, conv, shape, bounds, layout, nan_cells=None, mesh_opts=None, mode=
             ax = fig.add_subplot()
             q = cv.make_quiver(ax, 'u', ds['v'], transform=ax.transData)
             x, y, uu, vv = q.X, q.Y, q.U, q.V
+            ctx.check(q.get_transform() is ax.transData or q.transform is ax.transData, 'user supplied transform passes through to the quiver')
             plt.close(fig)
         ctx.check(len(x) == N and len(uu) == N, 'one arrow slot per cell in linear order')
         oks = []
